@@ -22,6 +22,7 @@ package samplebuilder
 import (
 	"encoding/json"
 	"fmt"
+	"os"
 	"reflect"
 	"sort"
 	"sync"
@@ -139,14 +140,16 @@ type c31Worker struct {
 	looseLost, dupLost int64
 	startLost          int64
 	pushed, used, emit []bool
-	npush              []int // pushes of a position so far
+	npush              []int  // pushes of a position so far
+	highBefore         []int  // highest position pushed before the latest push of a position (-1: none)
+	usedNonFirst       []bool // the sample that used the position did not start with it
 }
 
 func c31NewWorker(tb testing.TB) *c31Worker {
 	return &c31Worker{
 		states: map[uint64]struct{}{}, classes: map[int]struct{}{}, outcomes: map[int]struct{}{}, tb: tb,
 		pushed: make([]bool, 64), used: make([]bool, 64), emit: make([]bool, 64),
-		npush: make([]int, 64),
+		npush: make([]int, 64), highBefore: make([]int, 64), usedNonFirst: make([]bool, 64),
 	}
 }
 
@@ -273,19 +276,50 @@ func c31Run(c *vkit.Check, w *c31Worker, cs *c31Case, trace bool) {
 	)
 	for i := range pushed {
 		pushed[i], used[i] = false, false
-		w.npush[i] = 0
+		w.npush[i], w.highBefore[i], w.usedNonFirst[i] = 0, -1, false
 	}
 	for i := range emitted {
 		emitted[i] = false
 	}
 	w.kinds[c31KindIndex(cs.Kind)]++
-	// violation key = kind of breach (+ a cause where one breach has several mechanisms); the
-	// configuration dimensions are deliberately not part of it
+	// Violation key = kind of breach + the pattern the check can observe about it (see the call
+	// sites): the genuine defects of the unchanged tree each have a narrow pattern, and a key names
+	// exactly that pattern so that a different defect with the same kind of breach is not hidden by a
+	// known-findings entry.
+	inOrder := true
+	for i := 1; i < len(cs.Delivery); i++ {
+		if cs.Delivery[i] < cs.Delivery[i-1] {
+			inOrder = false
+		}
+	}
+	high := -1 // highest position pushed so far
+	fine := os.Getenv("VERIF_C31_FINE") != ""
 	fail := func(kind, what string) {
 		failed = true
 		rc := *cs
 		rc.Trace = tr
+		if fine {
+			maxFrame := 0
+			for _, k := range cs.Sizes {
+				if k > maxFrame {
+					maxFrame = k
+				}
+			}
+			kind += fmt.Sprintf("|F|kind=%s|heads=%v|delay=%d|inorder=%v|mlGEframe=%v|pop=%d|marker=%v", cs.Kind, cs.AllHeads, cs.DelayMs, inOrder, int(cs.MaxLate) >= maxFrame, cs.Pop, cs.Marker)
+		}
 		c.Violation(kind, what+" — case "+vkit.Short(cs), rc)
+	}
+	// lateness of the latest push of position p: how far the stream had already advanced past it
+	lateness := func(p int) string {
+		l := w.highBefore[p] - p
+		switch {
+		case l < 0:
+			return "not-late"
+		case l < int(cs.MaxLate):
+			return "late<maxLate"
+		}
+
+		return "late>=maxLate"
 	}
 	check := func(s *media.Sample) {
 		nSamples++
@@ -334,20 +368,33 @@ func c31Run(c *vkit.Check, w *c31Worker, cs *c31Case, trace bool) {
 			if used[p] {
 				// cause=repushed: the packet had been pushed twice (duplicate); cause=leftover: it was
 				// pushed once and still used twice
-				cause := "leftover"
+				// pushed once or twice (and how late the second push was); where the packet sat in the
+				// sample that used it first, and where it sits in this one
+				cause := "pushed-once"
 				if w.npush[p] > 1 {
-					cause = "repushed"
+					cause = "pushed-twice:" + lateness(p)
 				}
-				fail("packet-reused|cause="+cause, fmt.Sprintf("packet %d contributes to two samples (second: %v)", p, ids))
+				if w.usedNonFirst[p] {
+					cause += "|was=inner"
+				} else {
+					cause += "|was=first"
+				}
+				if p == ids[0] {
+					cause += "|now=first"
+				} else {
+					cause += "|now=inner"
+				}
+				fail("packet-reused|"+cause, fmt.Sprintf("packet %d contributes to two samples (second: %v)", p, ids))
 
 				return
 			}
 		}
-		for _, p := range ids {
+		for i, p := range ids {
 			used[p] = true
+			w.usedNonFirst[p] = i > 0
 		}
 		if ids[0] <= lastFirst {
-			fail("out-of-order", fmt.Sprintf("sample %v emitted after a sample starting at packet %d", ids, lastFirst))
+			fail("out-of-order|"+lateness(ids[0]), fmt.Sprintf("sample %v emitted after a sample starting at packet %d", ids, lastFirst))
 
 			return
 		}
@@ -396,6 +443,10 @@ func c31Run(c *vkit.Check, w *c31Worker, cs *c31Case, trace bool) {
 			sb.Push(pkt)
 			pushed[p] = true
 			w.npush[p]++
+			w.highBefore[p] = high
+			if p > high {
+				high = p
+			}
 			w.state(sb, cs)
 			if trace {
 				tr = append(tr, fmt.Sprintf("Push pos=%d seq=%d filled=%v active=%v", p, pkt.SequenceNumber, sb.filled, sb.active))
@@ -472,7 +523,22 @@ func c31Run(c *vkit.Check, w *c31Worker, cs *c31Case, trace bool) {
 	case strict:
 		w.premise++
 		if missing >= 0 {
-			fail("frame-lost", fmt.Sprintf("loss-free stream reordered within maxLate=%d: frame %d (packets %d..%d) never emitted complete after Flush",
+			// the frame right before the first lost one: none / a single packet / several packets
+			prev := "none"
+			switch {
+			case missing > 0 && !emitted[missing-1]:
+				prev = "unsynced" // it begins before the first pushed packet and did not come out
+			case missing > 0 && cs.Sizes[missing-1] > 1:
+				prev = "multi"
+			case missing > 0:
+				prev = "single"
+			}
+			if inOrder {
+				prev += "|inorder"
+			} else {
+				prev += "|reordered"
+			}
+			fail("frame-lost|prev-frame="+prev, fmt.Sprintf("loss-free stream reordered within maxLate=%d: frame %d (packets %d..%d) never emitted complete after Flush",
 				cs.MaxLate, missing, st.frameStart[missing], st.frameEnd[missing]-1))
 		}
 	case loose && missing >= 0:
